@@ -3,20 +3,22 @@
 PLAN_ENTRY = {'stages': [
     {'name': 'protocol',
      'mc': [{'module': 'AlignLM', 'cfg': {'quick': 'MC_C07_protocol.cfg', 'thorough': 'MC_C07_protocol.cfg'}, 'workers': 2},
-            {'module': 'AlignLM', 'cfg': {'quick': 'MC_C07_negative.cfg', 'thorough': 'MC_C07_negative.cfg'}, 'workers': 2, 'expect_violation': True}]},
+            {'module': 'AlignLM', 'cfg': {'quick': 'MC_C07_negative.cfg', 'thorough': 'MC_C07_negative.cfg'}, 'workers': 2, 'expect_violation': True}],
+     # unbounded: TLAPS proves the same invariants for any set of parameter vectors and histories of any length
+     'proofs': [{'module': 'AlignLMProof', 'tool': 'tlapm'}]},
     {'name': 'align',
      'mc': [{'module': 'MC_C07', 'cfg': {'quick': 'MC_C07_quick.cfg', 'thorough': 'MC_C07_thorough.cfg'}, 'workers': 4}],
      'gens': ['gen_c07_random'],
      'trace': 'Trace_Align'}],
     'assumptions': [
-        'TLC model-checks the set_params / residuals / jacobian protocol for every call order (3 abstract parameter vectors, 4 reports)',
+        'TLC model-checks the set_params / residuals / jacobian protocol for every call order (3 abstract parameter vectors, 4 reports); TLAPS (AlignLMProof.tla, 59 obligations) proves the invariants for any parameter set and any history length',
         'derived observations: the distance of a moved point to the reference is recomputed by the harness through the library closest-point queries (validated by C02), independently of the optimiser state',
         'convergence of Levenberg-Marquardt is a numerical fact: the spec states the fixed-point relation and checks it on recorded runs; basin = rotations <= ~15 deg (2D) / ~6 deg (3D), shifts <= 3/8 unit for the enumerated cases with full sample sets; for random sample subsets: no sample displaced by more than 1/2 unit (a quarter of the smallest feature)',
         'point mode is not differentiable at exactly zero distance: displacements leaving whole faces at distance 0 are excluded from the recovery clause',
     ]}
 
 CLAIM = {
-    'text': 'Model checking: the Levenberg-Marquardt problem is specified as a protocol machine (set_params / residuals / jacobian / finish in any order, cache of moved points owned by the parameters in force); TLC shows that with the refresh in set_params everything ever reported was computed from the current parameters, and (negative configuration, must fail) that without the refresh it is not. Binding: cfg(engeom_verif) hooks emit every set_params / residuals / jacobian call of the real solvers; TLC validates each recorded run against the protocol (the parameters seen by residuals/jacobian are those of the last set_params) and checks every recorded residual vector against the distances re-derived from those parameters. On the result: for L-shaped and notched lattice polygons (2D) and a lattice box (3D), lattice sample points, exact displacements (small Pythagorean rotations about every axis, shifts in eighths, plus out-of-basin ones), two starting guesses and both DistMode values, the i-th reported residual equals the mode-specific distance of the i-th point moved by the returned transform, the sum of squares is not larger than at the start, avg_residual is the mean, and inside the basin transform o displacement is the identity on every sample point.',
+    'text': 'Model checking and proof: the Levenberg-Marquardt problem is specified as a protocol machine (set_params / residuals / jacobian / finish in any order, cache of moved points owned by the parameters in force); TLC shows that with the refresh in set_params everything ever reported was computed from the current parameters, and (negative configuration, must fail) that without the refresh it is not; the invariant is also proved with TLAPS for unbounded parameter sets and histories (AlignLMProof.tla). Binding: cfg(engeom_verif) hooks emit every set_params / residuals / jacobian call of the real solvers; TLC validates each recorded run against the protocol (the parameters seen by residuals/jacobian are those of the last set_params) and checks every recorded residual vector against the distances re-derived from those parameters. On the result: for L-shaped and notched lattice polygons (2D) and a lattice box (3D), lattice sample points, exact displacements (small Pythagorean rotations about every axis, shifts in eighths, plus out-of-basin ones), two starting guesses and both DistMode values, the i-th reported residual equals the mode-specific distance of the i-th point moved by the returned transform, the sum of squares is not larger than at the start, avg_residual is the mean, and inside the basin transform o displacement is the identity on every sample point.',
     'design_ref': 'DESIGN.md section 6 C07',
     'note': 'Trusted: TLC, harness derived distances via engeom closest-point queries, nalgebra. Hooks: commit 1096747 (add-only, cfg engeom_verif).',
     'technique': 'TLA+ protocol spec model-checked by TLC (incl. negative model) + trace validation of hook-recorded solver runs against it',
